@@ -2,6 +2,8 @@
 from contracts import grammar as G
 
 from contracts import core as K
+from contracts import density as D_DEP
+from contracts import core as K_DEP
 ID = "C13"
 LEVEL = "other"
 TRUSTED = ["A4 pyparsing", "A6 solvers", "reference reading of the grammar (runner/ref_formula.py, written from the documentation)"]
@@ -13,12 +15,13 @@ EXPLANATION = ("Deductive: the token languages the printer must hit (count, isot
 
 
 def units(tier):
-    return ([G.L_TOKENS] + G.U_STR_ATOMS) + [K.L_ATOM_IDENTITY] + G.U_PARSE_FORMULA
+    return ([G.L_TOKENS] + G.U_STR_ATOMS) + [K.L_ATOM_IDENTITY] + G.U_PARSE_FORMULA + ([D_DEP.U_DENSITY_EL, D_DEP.U_DENSITY_ISO, K_DEP.L_REGISTRATION])
 
 
 def runner_tasks(tier):
     return [{"module": "c13", "task": "roundtrip", "kind": "bounded", "clause": "print/parse round trip, repr, names"},
-            {"module": "stateful", "task": "C13", "name": "stateful C13", "kind": "bounded", "clause": "print -> parse after other parses of the same text were edited by their owners; counts just below one; trace counts"}]
+            {"module": "stateful", "task": "C13", "name": "stateful C13", "kind": "bounded", "clause": "print -> parse after other parses of the same text were edited by their owners; counts just below one; trace counts"},
+            {"module": "independence", "task": "observations", "name": "independence", "kind": "bounded", "arg": {"tags": ["C13"]}, "clause": "fixed observations give the same value as the first use of the library in a fresh interpreter, in a warmed-up interpreter (twice) and in reverse order, and have their documented value", "timeout": 900}]
 
 
 REPLAY = {"module": "c13", "task": "replay"}
